@@ -17,7 +17,11 @@ def gen_sources(rng, nmax=4, names=('TICK_A', 'TICK_B', 'TICK_C'), times_max=6, 
     out.append({'i': i, 'sig': rng.choice(names), 'kind': rng.choice(['fifo', 'lifo']), 'period': rng.choice(PERIODS),
                 'times': rng.randint(0 if allow_infinite else 1, times_max), 'deferred': rng.choice([True, False, None]),
                 'start_delay': rng.choice([0.0, 0.0, 0.003, 0.2])})
-    if zero_period and rng.random() < 0.12:
+    if zero_period and rng.random() < 0.02:
+      # a LARGE repeat count (beyond CPython's small-integer cache), all postings at once or 1 ms apart
+      out[-1]['times'] = rng.choice([257, 258, 300])
+      out[-1]['period'] = rng.choice([0, 0.001])
+    elif zero_period and rng.random() < 0.12:
       # an unusual but legal input: period 0 (all postings at the instant of the call); finite sources only
       out[-1]['period'] = rng.choice([0, 0.0])
       out[-1]['times'] = max(1, out[-1]['times'])
